@@ -265,7 +265,7 @@ def coq_bg_case(c, out):
 # ------------------------------------------------------------------------------------------------ render monitor
 
 CBW, CBH = 200, 120
-# finding H: optimize_images re-encodes JPEGs at quality 75 although documented lossless; set True once fixed
+# JPEG pixels are judged under optimize_images too (F64 fixed: tables kept; residual generation loss has its own signature)
 OPTIMIZE_IS_LOSSLESS_FOR_JPEG = True   # judged; the open finding is met through its signature
 
 
@@ -724,8 +724,17 @@ def check_xobject(fail, d, uid, name, spec, xo, lossy_jpeg, lossy_all):
     if lossy_all or (lossy_jpeg and spec['kind'] == 'jpeg'):
         return
     if name not in xo['match'] and spec['kind'] == 'jpeg' and d['pdf_options'].get('optimize_images'):
-        fail('optimize_images (documented lossless) changed the pixels of JPEG %s painted for #%s' % (name, uid), d,
-             {'element': uid, 'xobject': xo}, 'c13:optimize-images-jpeg-lossy')
+        re = xo.get('reencoded', {}).get(name)
+        if re is None or not re['same_qtables']:
+            # F64 (fixed by 9248bed): the JPEG must at least keep the quantisation tables of its source
+            fail('optimize_images (documented lossless) re-quantised JPEG %s painted for #%s: %s' % (name, uid, re), d,
+                 {'element': uid, 'xobject': xo}, 'c13:optimize-images-jpeg-lossy')
+        else:
+            # what is left of it: the picture is still decoded and encoded again (same tables, same sampling), which is
+            # not the identity on the samples
+            fail('optimize_images (documented lossless) decodes and re-encodes JPEG %s painted for #%s: same quantisation '
+                 'tables, decoded samples differ by up to %d/255' % (name, uid, re['maxdiff']), d,
+                 {'element': uid, 'xobject': xo}, 'c13:jpeg-reencode-generation-loss')
         return
     if name not in xo['match']:
         fail('image XObject painted for #%s (%s %s) does not decode to the pixels/alpha of its source (matches %s)' % (
@@ -783,6 +792,20 @@ def gen_xobject_docs(rng, k):
         rng.shuffle(sel)
         for i in range(0, len(sel), 6):
             docs.append(dict(items=sel[i:i + 6], options=opts))
+    # one URL used with several orientations in one document (F63: the image cache / image id must depend on the
+    # orientation): twins of the first item of a document, same source, other orientation
+    oris = x_orientations()
+    for d in docs[::3]:
+        a = d['items'][0]
+        for css, exif, code in rng.sample(oris, 2):
+            if exif != a['spec']['exif'] and css == 'from-image':
+                css, code = 'none', 1
+            elif css == 'from-image':
+                code = a['spec']['exif'] or 1
+            if css == 'none':
+                code = 1
+            d['items'].append(dict(id='x%d' % n, src=a['id'], spec=a['spec'], orientation=css, code=code, options=a['options']))
+            n += 1
     return docs
 
 
@@ -847,6 +870,20 @@ def xobject_prepare(run, docs, outs):
                             it['orientation'], spec['exif']), d, it, {}, 'c13:jpeg-requantized-on-orientation')
             cases.append(coq_xo_case(it, r))
             meta.append((d, it))
+        # identity of the embedded images: one URL with the same CSS orientation is embedded once, with different
+        # orientations never through the same XObject unless the oriented pictures are the same
+        by_src = {}
+        for it in d['items']:
+            r = o['items'].get(it['id'])
+            if r is not None and 'obj' in r:
+                by_src.setdefault(it.get('src') or it['id'], []).append((it, r['obj']))
+        for src, lst in by_src.items():
+            for (a, oa), (b, ob) in itertools.combinations(lst, 2):
+                if a['orientation'] == b['orientation'] and oa != ob:
+                    fail('one image with one orientation embedded twice (objects %s, %s)' % (oa, ob), d, b, {}, 'c13:embedded-once')
+                if a['code'] != b['code'] and oa == ob:
+                    fail('one image used with image-orientation %s and %s is painted through the same XObject' % (
+                        a['orientation'], b['orientation']), d, b, {'twin': a}, 'c13:image-cache-ignores-orientation')
             seen.add((spec['fmt'], spec['mode'], spec['trns'], spec['app14'], it['orientation'], spec['exif'],
                       tuple(sorted(d['options']))))
     return dict(cases=cases, meta=meta, seen=seen, deferred=deferred)
@@ -1163,7 +1200,7 @@ def check(run):
     t0 = time.time()
     allc = [dict(fn=j.impl_fn, case=c) for j in jobs for c in j.cases]
     allc += [dict(fn='render_images', case=dict(images=d['images'], html=d['html'], pdf_options=d['pdf_options'])) for d in docs]
-    allc += [dict(fn='xobject_probe', case=dict(items=[dict(id=i['id'], spec=i['spec'], orientation=i['orientation'])
+    allc += [dict(fn='xobject_probe', case=dict(items=[dict(id=i['id'], src=i.get('src'), spec=i['spec'], orientation=i['orientation'])
                                                        for i in d['items']], options=d['options'])) for d in xdocs]
     allc += [dict(fn='svg_probe', case=dict(items=d['items'])) for d in sdocs]
     outs = common.run_impl('impl_c13', 'dispatch', allc, limit=60, chunksize=4)
@@ -1272,7 +1309,8 @@ def replay(data):
     if stream == 'xobject-modes':
         items = [d['item']] if 'item' in d else d.get('items', [])
         doc = dict(items=items, options=d.get('options', {}))
-        outs = common.run_impl('impl_c13', 'xobject_probe', [dict(items=[dict(id=i['id'], spec=i['spec'], orientation=i['orientation'])
+        outs = common.run_impl('impl_c13', 'xobject_probe', [dict(items=[dict(id=i['id'], src=i.get('src'), spec=i['spec'],
+                                                                               orientation=i['orientation'])
                                                                           for i in items], options=doc['options'])])
         print('replay: implementation output', str(outs)[:1500])
         xo = xobject_prepare(rr, [doc], outs)
